@@ -63,6 +63,17 @@ def build_plan(tier, seed):
     runs.append({"name": "homogeneous_batches_b3", "inputs": seq, "form": "dict", "batch_size": 3, "n_jobs": 4, "threshold": 0})
     runs.append({"name": "homogeneous_batches_b3_thr", "inputs": seq, "form": "list", "batch_size": 3, "n_jobs": 4,
                  "threshold": 0.5})
+    # rows that already carry the pipeline's own bookkeeping columns (an earlier result fed back in, a CSV with an index
+    # column): 'solved', 'id' and 'input_reaction' are (re)computed by every call, whatever arrives in them
+    mix = kinds["declined"] + kinds["mcs"][:3] + kinds["rule"][:3] + kinds["balanced"][:3] + \
+        ["CCC(=O)OCC>>CCC(=O)O", "CC(=O)OC=C>>CC(=O)O", "CCOC(=O)C>>CC(=O)N"]
+    ids = list(range(len(mix)))
+    rng.shuffle(ids)
+    fed = [{"reaction": s_, "solved": True, "id": ids[j], "input_reaction": "CCO>>CCO", "note": "n%d" % j}
+           for j, s_ in enumerate(mix)]
+    runs.append({"name": "refeed_flags", "inputs": fed, "form": "dict", "batch_size": None, "n_jobs": 4, "threshold": 0})
+    fed2 = [dict(r_, id="row-%d" % (100 - j), solved=(j % 2 == 0)) for j, r_ in enumerate(fed)]
+    runs.append({"name": "refeed_flags_b4", "inputs": fed2, "form": "dict", "batch_size": 4, "n_jobs": 4, "threshold": 0})
     # thresholds sitting on a reported confidence (learned from the run "only_mcs" in the same process)
     thr_in = kinds["mcs"] + kinds["rule"][:2] + kinds["balanced"][:2]
     for k in range(3 if quick else 6):
